@@ -165,11 +165,16 @@ def _base_opts(r: Rng, ds: dsdlgen.DsdlSet, lang: typing.Optional[str]) -> dict:
     if r.chance(1, 4):
         opts["lookups"] = [x for x in ds.roots if x != root]
     opts["outdir_spelling"] = r.choice(["abs", "rel", "rel_dot", "abs_slash"])
+    # the other root namespaces of the set: a project generates several roots into ONE directory (shared support files)
+    opts["alt_roots"] = [[x, ds.root_deps(x)] for x in ds.roots if x != root]
     return opts
 
 
 def _vary_opts(r: Rng, base: dict, tier: str) -> dict:
     o = dict(base)
+    alt = o.pop("alt_roots", None) or []
+    if alt and r.chance(1, 4):
+        o["root"], o["lookups"] = r.choice(alt)
     lang = o["lang"]
     modes = FILE_MODES if tier == "quick" else FILE_MODES_THOROUGH
     if r.chance(2, 3):
@@ -358,7 +363,7 @@ def run_case(case: dict, ctx: dict) -> dict:
         if kind == "generate":
             opts = dict(op["opts"])
             if base is not None:
-                merged = dict(base)
+                merged = {k: v for k, v in base.items() if k != "alt_roots"}
                 merged.update(opts)
                 opts = merged
             op["opts"] = opts
